@@ -41,8 +41,16 @@ def classify(rec):
     return None
 
 
+EXOTIC_WS = ["\x1c", "\x1d", "\x1e", "\x1f", "\x0b", "\x0c", "\x85", "\xa0", "\u2003", "\u3000", "\u2028"]
+
+
 def decorate(rng, text):
-    c = rng.randrange(6)
+    c = rng.randrange(8)
+    if c >= 6:
+        # surrounding whitespace beyond blank/TAB/CR/LF: everything str.strip() trims
+        lead = "".join(rng.choice(EXOTIC_WS + [" "]) for _ in range(rng.randint(0, 2)))
+        trail = "".join(rng.choice(EXOTIC_WS + [" "]) for _ in range(rng.randint(1, 3)))
+        return lead + text + trail
     if c == 0:
         return text
     if c == 1:
@@ -105,8 +113,10 @@ def gen_framing(rng):
     elif kind == "prefix-of-longer-name":
         # the reply of a request whose name merely *contains* the request's name later on
         reply = "X" + name + "," + nonce + reply_eol(rng)
-    step = {"m": prim, "a": [decorate(rng, text)], "faults": faults, "reply": {"0": reply}}
-    return [shape_cls, "framing:" + kind, "primitive:" + prim], step
+    sent = decorate(rng, text)
+    step = {"m": prim, "a": [sent], "faults": faults, "reply": {"0": reply}}
+    extra = ["whitespace: ASCII separators / non-ASCII spaces around the request"] if any(ch in sent for ch in EXOTIC_WS) else []
+    return [shape_cls, "framing:" + kind, "primitive:" + prim] + extra, step
 
 
 def value_hook(ctx, findings):
@@ -259,7 +269,8 @@ def run(ctx):
     for cls in ("one-letter", "one-letter+args", "two-letter", "framing:ok", "framing:ok-delayed", "framing:ok-25",
                 "framing:timeout-26", "framing:timeout-silence", "framing:errline", "framing:errline-named",
                 "framing:wrong-name", "framing:raise-write", "framing:raise-read", "framing:raise-read-late",
-                "framing:bare-name", "framing:prefix-of-longer-name", "primitive:command", "primitive:query"):
+                "framing:bare-name", "framing:prefix-of-longer-name", "primitive:command", "primitive:query",
+                "whitespace: ASCII separators / non-ASCII spaces around the request"):
         ctx.need(cls, 40)
     ctx.need("systematic", 300 if ctx.nshards == 1 else 30)
     ctx.need("history:delayed-conforming", 300)
